@@ -202,7 +202,7 @@ func c12UnderLock(c *Ctx, typ, field, lock string, constructors []string) {
 		}
 		for _, cc := range callers {
 			var parent *ssa.Function
-			for _, f := range p.ModFns {
+			for _, f := range append(append([]*ssa.Function{}, p.ModFns...), p.Wrappers()...) {
 				for _, b := range f.Blocks {
 					for _, in := range b.Instrs {
 						if ci, ok := in.(ssa.CallInstruction); ok && ci.Common() == cc {
@@ -211,7 +211,11 @@ func c12UnderLock(c *Ctx, typ, field, lock string, constructors []string) {
 					}
 				}
 			}
-			if parent == nil || !held(parent, depth-1) {
+			d := depth - 1
+			if parent != nil && core.WrapperOf(fn) == parent {
+				d = depth // the thin wrapper fn is known by: transparent
+			}
+			if parent == nil || !held(parent, d) {
 				return false
 			}
 		}
@@ -497,4 +501,48 @@ func c12FailureRecords(c *Ctx) {
 		}
 	}
 	r.Floor("C12-D5", "failure-record-removals", n, 2)
+	// every store of a failure record has been through the comparison of the count with the limit (also the
+	// first failure: with a limit of one it is the one that must start the block)
+	inc := p.Fn("(*home.authRateLimiter).incLocked")
+	if inc == nil {
+		r.Undecided("C12-D5", "incLocked", "-", "anchor not found")
+		return
+	}
+	isLimitTest := func(in ssa.Instruction) bool {
+		iff, ok := in.(*ssa.If)
+		if !ok {
+			return false
+		}
+		at := core.Decompose(iff.Cond)
+		for _, v := range []ssa.Value{at.Base, at.Other} {
+			if v == nil {
+				continue
+			}
+			if fr, _, ok := core.LoadedField(core.ResolveCellLoad(v)); ok && fr.Type == "home.authRateLimiter" && fr.Field == "maxAttempts" {
+				return true
+			}
+		}
+		return false
+	}
+	nStores, bad := 0, false
+	var det []string
+	for _, b := range inc.Blocks {
+		for _, in := range b.Instrs {
+			mu, ok := in.(*ssa.MapUpdate)
+			if !ok {
+				continue
+			}
+			if fr, _, ok := core.LoadedField(mu.Map); !ok || fr.Field != "failedAuths" {
+				continue
+			}
+			nStores++
+			target := in
+			if found, tr, _ := core.Reach(core.Query{From: []core.Point{core.Entry(inc)}, Target: func(x ssa.Instruction) bool { return x == target }, Avoid: isLimitTest}); found {
+				bad = true
+				det = append(det, p.TraceString(tr))
+			}
+		}
+	}
+	r.Check(nStores > 0 && !bad, "C12-D5", "every-failure-compared-with-limit", p.FnPos(inc),
+		"every failure record is stored only after its count was compared with the attempt limit", "a failure record can be stored without comparing its count with the limit (e.g. the first failure): with a limit of one the address is never blocked for the block period", det...)
 }
